@@ -1,7 +1,9 @@
 """C14 - page checksums are IEEE CRC-32 and page damage is always detected.
 
-Proof: coq/theories/Props/Properties_C14.v (8 theorems; model Util/Crc32Model.v, spec Util/Crc32Spec.v).
-Tie:   (a) CRC32_POLY regenerated from src/util/crc32.c; (b) carquet_crc32/_update vs extracted model vs
+Proof: coq/theories/Props/Properties_C14.v (12 theorems; model Util/Crc32Model.v, spec Util/Crc32Spec.v).
+Tie:   (a) CRC32_POLY regenerated from src/util/crc32.c; the guard of every carquet_crc32 call site of
+       src/reader/page_reader.c translated to Gallina (tools/gen.d/crcsites.py -> Gen/CrcSites_gen.v) and proved
+       equal to the model's decision (Util/Crc32Sites.v); (b) carquet_crc32/_update vs extracted model vs
        extracted bit-serial spec vs zlib crc32() on every length 0..N x alignments x random splits;
        file level: every bit of every page body of generated files x {fread, mmap, buffer} must be
        reported as an error with verification on, and handled memory-safely with verification off.
@@ -156,7 +158,8 @@ def run(tier):
     prelude(rep, PID)
     rep.cov["trusted_base"] = vlib.TRUSTED_BASE_COMMON + [
         "zlib 1.2.13 crc32() as an independent oracle for IEEE CRC-32 (validation of Crc32Spec, not a proof)",
-        "modelled, not verified: src/util/crc32.c (slicing-by-8 tables, main loop, tail, update) and the reader's accept/reject decision on a stored page CRC (page_reader.c, four sites)",
+        "modelled, not verified: src/util/crc32.c (slicing-by-8 tables, main loop, tail, update); the reader's accept/reject decision on a stored page CRC is modelled by hand (page_crc_ok) and tied to every carquet_crc32 call site of src/reader/page_reader.c by a translator",
+        "translator tools/gen.d/crcsites.py (regular-expression/recursive-descent reading of the `if` condition around each carquet_crc32 call into a Gallina boolean function; checks the length argument, the uint32 view of the stored field and the rejecting comparison textually); it does not follow data flow (a guard computed into a variable first is reported as a broken tie, not translated)",
     ]
     rep.cov["rule"] = ("every length 0..600 x alignments (quick: 2 per length, thorough: all 16) with random contents, "
                        "structured contents (zeros, ones, one set bit), long random inputs, random two-way splits for update; "
